@@ -530,7 +530,10 @@ def cached(fcn):
     if isinstance(fcn, CachedFcn):
         return fcn
     if isinstance(fcn, UserFcn):
-        return CachedFcn(fcn.expr, fcn.name)
+        out = CachedFcn(fcn.expr, fcn.name)
+        if getattr(fcn, "_named", False):
+            out._named = True
+        return out
     return CachedFcn(fcn)
 
 
@@ -551,13 +554,19 @@ def named(name, fcn):
     Unlike the histogrammar.util.UserFcn constructor, this function avoids duplication (doubly wrapped objects) and
     commutes with histogrammar.util.cached and histogrammar.util.serializable (they can be applied in any order).
     """
-    if isinstance(fcn, UserFcn) and fcn.name is not None and fcn.name != _defaultName(fcn.expr):
+    if isinstance(fcn, UserFcn) and (
+        getattr(fcn, "_named", False) or (fcn.name is not None and fcn.name != _defaultName(fcn.expr))
+    ):
         raise ValueError(f"two names applied to the same function: {fcn.name} and {name}")
     if isinstance(fcn, CachedFcn):
-        return CachedFcn(fcn.expr, name)
-    if isinstance(fcn, UserFcn):
-        return UserFcn(fcn.expr, name)
-    return UserFcn(fcn, name)
+        out = CachedFcn(fcn.expr, name)
+    elif isinstance(fcn, UserFcn):
+        out = UserFcn(fcn.expr, name)
+    else:
+        out = UserFcn(fcn, name)
+    # remember that the name was given explicitly, even if it equals the one the function would have had anyway
+    out._named = True
+    return out
 
 
 def get_n_dim(hist, itr=0):
